@@ -1035,6 +1035,7 @@ func checkIPv4Decoder(c *km.Ctx, s *km.Sem, rule string) {
 		st := c.F.At(in)
 		arr := arrayLen(ia.X.Type())
 		ok2 := st.All(func(k km.Conj) bool {
+			k = s.SaturateBool(k) // the guard may have been split over named booleans
 			capOK, lenOK, loopOK := false, false, false
 			for _, f := range k.List() {
 				// BitLength <= 8*N
